@@ -119,24 +119,54 @@ def analyse(P, R, key, cap_attr, thr_attr, mstep_names, rule="LOOP"):
             return None
         F.inc = incs[0]
     else:
-        # for step in range(1, cap + 1)  /  range(cap)
+        # for step in range(1, cap + 1)  /  range(cap)  /  a name bound to such a range, or to itertools.count(k) when the cap is None
         it = loop.iter
-        if not (isinstance(it, ast.Call) and src(it.func) == "range" and isinstance(loop.target, ast.Name)):
+        forms = [it]
+        if isinstance(it, ast.Name):
+            rd_ = [d for d in du.reaching(loop, it.id) if not _inside(d.stmt, loop)]
+            forms = [d.value for d in rd_ if d.how == "assign" and d.value is not None]
+            if not forms or len(forms) != len(rd_):
+                R.undecided(rule + ".L1", key, f"for {src(loop.target)} in {src(it)}", "loop form not recognised")
+                return None
+            form_stmts = {id(d.value): d.stmt for d in rd_}
+        if not isinstance(loop.target, ast.Name) or not all(isinstance(x, ast.Call) and src(x.func).split(".")[-1] in ("range", "count") for x in forms):
             R.undecided(rule + ".L1", key, f"for {src(loop.target)} in {src(it)}", "loop form not recognised")
             return None
         step = loop.target.id
-        args = it.args
-        if len(args) == 1:
-            init, hi = 0, args[0]
-            off = 0
-        else:
-            init, hi = const_value(args[0]), args[1]
-        ok = False
-        if _self_attr(hi, me) and hi.attr == cap_attr and init == 0:
-            ok = True
-            init_at_check = 0  # step runs 0..cap-1
-        elif isinstance(hi, ast.BinOp) and isinstance(hi.op, ast.Add) and _self_attr(hi.left, me) and hi.left.attr == cap_attr and const_value(hi.right) == 1 and init == 1:
-            ok = True
+
+        def _cap_expr(e):
+            if isinstance(e, ast.Call) and isinstance(e.func, ast.Name) and e.func.id == "int" and len(e.args) == 1:
+                e = e.args[0]
+            return _is_cap(e)
+        inits = set()
+        ok = True
+        n_range = 0
+        for fx in forms:
+            fn_ = src(fx.func).split(".")[-1]
+            args = fx.args
+            if fn_ == "count":
+                # unbounded: only for a machine configured without a cap
+                from ..cfg import guards_of as _gof
+                st_ = form_stmts.get(id(fx)) if isinstance(it, ast.Name) else None
+                gs_ = _gof(st_) if st_ is not None else []
+                nocap = any(isinstance(t_, ast.Compare) and len(t_.ops) == 1 and isinstance(t_.ops[0], ast.Is) and isinstance(t_.comparators[0], ast.Constant) and t_.comparators[0].value is None and _is_cap(t_.left) and pol_ for t_, pol_ in gs_)
+                R.check(nocap, rule + ".L1-nocap", key, f"{src(fx)}", "unbounded only when the cap is None", "an unbounded counter is used although an iteration cap may be configured", loop.lineno)
+                ok = ok and nocap
+                inits.add((const_value(args[0]) if args else 0) - 1)
+                continue
+            n_range += 1
+            if len(args) == 1:
+                init_, hi = 0, args[0]
+            else:
+                init_, hi = const_value(args[0]), args[1]
+            if _cap_expr(hi) and init_ == 0:
+                inits.add(-1)  # passes = cap
+            elif isinstance(hi, ast.BinOp) and isinstance(hi.op, ast.Add) and _cap_expr(hi.left) and const_value(hi.right) == 1 and init_ == 1:
+                inits.add(0)
+            else:
+                ok = False
+        ok = ok and n_range >= 1 and len(inits) == 1
+        init = (inits.pop() + 1) if len(inits) == 1 else None
         R.check(ok, rule + ".L1-cap", key, f"for {step} in {src(it)}", "exactly max iterations passes", "the for-range does not run exactly the configured maximum number of passes", loop.lineno)
         if not ok:
             return None
